@@ -177,11 +177,17 @@ def _wrap(fn):
     return inner
 
 
+def rule_r3(ctx):
+    from .common import fresh_default_insts
+    return fresh_default_insts(ctx, "C14.R3")
+
+
 SPECS = [
     RuleSpec("C14.R1", _wrap(rule_r1), 140, "A3", "no parameter-rooted mutation in any listed operation",
              control=lambda: control_r1(_holder)),
     RuleSpec("C14.R2", _wrap(rule_r2), 12, "A3", "copies return only fresh state",
              control=lambda: control_r2(_holder)),
+    RuleSpec("C14.R3", rule_r3, 6, "A3", "every chart gets its own list objects (fresh defaults per instance)"),
 ]
 
 META = dict(
